@@ -275,9 +275,14 @@ func rView(v *View) string {
 	for _, i := range v.Items {
 		its = append(its, rVItem(i))
 	}
-	pk := "PRIMARY KEY (" + rParen(v.PK)
-	if len(v.CC) > 0 {
-		pk += ", " + strings.Join(v.CC, ", ")
+	pk := "PRIMARY KEY ("
+	if len(v.PK) == 0 { // no partition key group
+		pk += strings.Join(v.CC, ", ")
+	} else {
+		pk += rParen(v.PK)
+		if len(v.CC) > 0 {
+			pk += ", " + strings.Join(v.CC, ", ")
+		}
 	}
 	pk += ")"
 	its = append(its, pk)
